@@ -62,6 +62,13 @@ impl Prop for C01 {
             let has = u.text.contains("\"str\ning\"") || u.text.contains("\"x\n  y\"") || u.text.contains("\"multi\nline\" here");
             !has || ((u.key.contains("@fn/L0") || u.key.contains("@top/L0")) && u.cfg.kv.is_empty())
         });
+        // A `macro` definition in a match-arm block under indent_style=Visual is emitted with a duplicated `) {`
+        // at narrow widths (known finding): that atom is explored under Visual in its first context, one-line
+        // layout, with no second option.
+        units.retain(|u| {
+            let has = u.text.contains("macro m([$a:expr])") && u.cfg.get("indent_style") == Some("Visual");
+            !has || (u.key.contains("@fn/L0") && u.cfg.kv.len() == 1)
+        });
         if thorough {
             // The repository's fixtures under the default configuration (their header configurations exercise
             // opt-in rewrites, e.g. of doc-comment code blocks, for which the canonicaliser has rules only over
